@@ -178,6 +178,24 @@ def BndTree.eval (L U : Dbl) (k cvar : Nat) : BndTree → List Tok
       | .lEqU => L.ieeeEq U
     if c then y.eval L U k cvar else n.eval L U k cvar
 
+/-! ## column sizes: `ColSizeWriter::Write` (writer) and the `if (CUMULATIVE)` block of `ReadColumnSizes` (reader) -/
+inductive CVar | size | prev
+deriving DecidableEq, Repr, Inhabited
+/-- the statements that occur in the reader's block, over the two `int` variables `size` and `prev_size` -/
+inductive CStmt
+  | errIfLt (a b : CVar)     -- if (a < b) ReportError("invalid column offset")
+  | sub (a b : CVar)         -- a -= b
+  | add (a b : CVar)         -- a += b
+  | set (a b : CVar)         -- a = b
+deriving DecidableEq, Repr, Inhabited
+
+/-- one `case` of `ColSizeWriter::Write`: the kind it serves, whether `sum_ += s` precedes the output, whether `sum_` (else `s`) is printed -/
+structure ColWriteCase where
+  kind : Nat
+  accumulates : Bool
+  printsSum : Bool
+deriving DecidableEq, Repr, Inhabited
+
 /-! ## `NLReader::ReadBounds`: per bound-type digit, where `lb` and `ub` come from -/
 inductive BndSrc | read | negInf | posInf | sameAsLb
 deriving DecidableEq, Repr, Inhabited
